@@ -186,20 +186,34 @@ def seeds():
         S["riff"].append((data, {"order": order}))
         S["mmap"].append((ch[1][1], {"order": order}))
         S["locate"].append((c01.rand_prefix(rng, "<") + data, {}))
-    # generated inputs of the other families' harness modules (every header variant, not only what the fixtures contain)
-    try:
-        import c07
-        for ext in (False, True):
-            for bits in (8, 16):
-                for ch in (1, 2, 4):
-                    for fmt in (1, 2):
+    # generated inputs of the other families' harness modules (every header variant / record kind, not only what the fixtures
+    # contain): the byte strings are read off the driver lines of their quick-tier cases
+    HARVEST = {("idx", "vwcf"): ("vwcf", 2, None), ("idx", "lnam"): ("lnam", 3, None), ("idx", "vwlb"): ("vwlb", 3, None),
+               ("idx", "key"): ("key", 3, 2), ("idx", "lctx"): ("lctx", 2, None), ("idx", "cas"): ("cas", 2, None),
+               ("text", "stxt"): ("stxt", 4, None), ("text", "fmap"): ("fmap", 3, None), ("cast", "parse"): ("cast", 3, None),
+               ("snd", "decode"): ("snd", 2, None), ("score", "parse"): ("vwsc", 2, None)}
+    import importlib
+    for modname in ("c17", "c16", "c15", "c07", "c08"):
+        try:
+            mod = importlib.import_module(modname)
+            got = {}
+            for c in mod.cases(random.Random(7), "quick"):
+                for l in c.lines:
+                    t = l.split()
+                    h = HARVEST.get((t[0], t[1])) if len(t) > 2 else None
+                    if h and len(t) > h[1]:
                         try:
-                            sp = c07.rand_spec(rng, fmt=fmt, ext=ext, bits=bits, ch=ch)
-                            S["snd"].append((c07.encode(sp), {}))
-                        except Exception:
-                            pass
-    except Exception:
-        pass
+                            b = bytes.fromhex("" if t[h[1]] == "-" else t[h[1]])
+                        except ValueError:
+                            continue
+                        if len(b) <= 65536:
+                            got.setdefault(h[0], {}).setdefault(b, {"order": t[h[2]]} if h[2] is not None else {})
+            for name, d in got.items():
+                items = list(d.items())
+                step = max(1, len(items) // 30)
+                S[name] += items[::step][:30]
+        except Exception:
+            continue
     _SEEDS = S
     return S
 
